@@ -238,7 +238,10 @@ func buildC10Pool(env *Env, r *Rand, n int) ([]poolProg, [][]int) {
 			add(fmt.Sprintf("shared-text%d", mode), b.String())
 		default:
 			// programs gosk refuses or complains about (they must not poison later calls)
-			add("refused", Pick(r, []string{"\tMOV AX,\n", "\tFOO BAR\n", "\tADC AX,BX\n\tDB 1\n", "\tMOV AX,[nolabel]\n\tDB 2\n", "\tJMP\n", "\tDW \"str\"\n\tDB 3\n", "\tLGDT [nowhere]\n\tDB 4\n"}))
+			add("refused", Pick(r, []string{"\tMOV AX,\n", "\tFOO BAR\n", "\tADC AX,BX\n\tDB 1\n", "\tMOV AX,[nolabel]\n\tDB 2\n", "\tJMP\n", "\tDW \"str\"\n\tDB 3\n", "\tLGDT [nowhere]\n\tDB 4\n",
+				// refused programs that use the very identifiers the valid programs of the pool use (K0.., L0.., sym0..): what a failure leaves behind about a NAME shows in them
+				"K0\tEQU\tK1*2\nK1\tEQU\t[K0*2]\n\tMOV AX,K1\n", "K2\tEQU\tK3+1\nK3\tEQU\t8:K2\n\tJMP K3\n", "K0\tEQU\tK0+1\n\tDD K0\n", "K1\tEQU\tnolabel\n\tMOV AX,K1\n\tDB 5\n",
+				"L0:\n\tJMP L1\n\tDW L9\n", "K0\tEQU\t5\nK0\tEQU\t[K0]\n\tMOV AX,K0\n", "sym0:\n\tDW sym1\n\tMOV AX,[sym0\n", "K3\tEQU\tK4\nK4\tEQU\tK3\n\tDD K3\n"}))
 		}
 	}
 	return pool, sib
